@@ -465,3 +465,83 @@ def eol_defect_programs():
             for ctxname, before, after in (("top", "module M" + nl, ""), ("top-followed", "module M" + nl, "struct Other {}" + nl),
                                            ("no-module", "", "")):
                 yield ("code", d, ename, ctxname), before + d + eol + after
+
+
+LINT_RICH_PROGRAMS = [
+    # every commentable element carries a doc comment that yields a lint (recorded at parse time with the element as its scope);
+    # every container holds children that are built before the container itself is complete
+    """module M
+/// {@link
+[allow(BrokenDocLink)] struct S {
+    /// {@link
+    a: bool,
+    /// @unknown x
+    [deprecated] b: Sequence<Dictionary<string, S?>>
+}
+/// {@link
+enum E {
+    /// {@link
+    A(
+        /// {@link
+        f: bool,
+        /// @unknown y
+        [allow(All)] g: Sequence<S>
+    ),
+    /// @unknown z
+    B(
+        /// {@link
+        h: Result<bool, string>
+    ) = 7,
+    C
+}
+/// {@link
+interface I {
+    /// {@link
+    /// @param p: {@link
+    op(p: bool, tag(1) q: Sequence<S>?) -> (r: bool, s: string)
+    /// @unknown w
+    [oneway] op2(x: E)
+}
+/// {@link
+typealias T = Dictionary<string, Sequence<E>>
+/// {@link
+custom C
+""",
+    """module A::B
+/// @returns: nothing {@link Nope}
+unchecked enum U : uint8 {
+    /// {@link
+    X = 1,
+    /// {@link
+    Y
+}
+compact enum K {
+    /// {@link
+    P(
+        /// {@link
+        v: U
+    )
+}
+/// {@link
+compact struct CS { /// {@link
+ a: int32 }
+interface J : I {
+    /// {@link
+    idempotent get(/// no
+ a: bool) -> stream bool
+}
+interface I {}
+""",
+]
+
+
+def truncation_programs():
+    """Every prefix of the lint-rich programs cut at a token boundary, bare and followed by a stray token, so that a syntax
+    error follows each element at the moment it has just been built (its children built, its container not yet)."""
+    import re as _re
+    for pi, text in enumerate(LINT_RICH_PROGRAMS):
+        bounds = sorted(set([m.end() for m in _re.finditer(r"[A-Za-z_0-9]+|///[^\n]*|[^\sA-Za-z_0-9]", text)]))
+        for b in bounds:
+            prefix = text[:b]
+            for tail in ("", "\n}", "\n=", "\n$", "\n)", "\nstruct", "\n}\n}\n", "\n/// {@link\n", "\n, ,"):
+                yield ("truncate", pi, b, tail), prefix + tail
